@@ -35,17 +35,39 @@ fn gen_case(rng: &mut Rng, _i: usize, _o: &Opts, dist: &mut Dist) -> Sexp {
                 vars_sexp(&vars),
                 w.to_sexp(),
                 st(text),
+                // number of pass-through extensions installed (they must not change the response)
+                node("ext", vec![num(if rng.chance(1, 3) { 1 + rng.below(2) } else { 0 })]),
             ],
         )
     })
 }
+
+/// an extension whose hooks only delegate
+struct PassThrough;
+impl async_graphql::extensions::ExtensionFactory for PassThrough {
+    fn create(&self) -> std::sync::Arc<dyn async_graphql::extensions::Extension> {
+        std::sync::Arc::new(PassThroughExt)
+    }
+}
+struct PassThroughExt;
+#[async_graphql::async_trait::async_trait]
+impl async_graphql::extensions::Extension for PassThroughExt {}
 
 fn run(case: &Sexp, dist: &mut Dist) -> Sexp {
     let a = case.args();
     let vars = vars_from_sexp(&a[3]);
     let w = Arc::new(World::from_sexp(&a[4]).expect("world"));
     let text = a[5].as_str().unwrap();
-    let schema = build_schema();
+    let n_ext = a.get(6).and_then(|e| e.args().first()).and_then(|x| x.as_usize()).unwrap_or(0);
+    let schema = if n_ext == 0 {
+        build_schema()
+    } else {
+        let mut b = async_graphql::Schema::build(Query, Mutation, async_graphql::EmptySubscription);
+        for _ in 0..n_ext {
+            b = b.extension(PassThrough);
+        }
+        b.finish()
+    };
     let mut req = async_graphql::Request::new(text).data(w.clone());
     if let Some(n) = a[2].as_str() {
         req = req.operation_name(n);
